@@ -327,7 +327,7 @@ impl Check for C16 {
                         );
                     }
                 }
-                if e.op == Op::Unlink && e.ret >= 0 && e.path.starts_with(&format!("{}/", out_real)) {
+                if e.op == Op::Unlink && e.ret >= 0 && before_abs(&e.path).is_some() && e.path.starts_with(&format!("{}/", out_real)) {
                     co.count("files_deleted_by_cleanup", 1);
                 }
             }
